@@ -10,7 +10,9 @@ import hashlib
 import random
 import traceback
 
+import os
 RUNNABLE, BLOCKED, DONE, NEW = 0, 1, 2, 3
+_STACKS = float(os.environ.get("VERIF_STACKS") or 0)      # debugging aid: dump all task stacks before a clock jump >= this
 
 CUR = None          # the Sim that is currently executing (module-global seam for fakes)
 
@@ -540,6 +542,10 @@ class Sim(object):
             if dl is None:
                 raise Deadlock(self.report())
             if dl > self.now:
+                if _STACKS and dl - self.now >= _STACKS:
+                    print("=== virtual clock about to jump %.3f -> %.3f; tasks:" % (self.now, dl))
+                    for t in self.report(14):
+                        print("task %(task)s %(state)s in %(what)s (deadline %(deadline)s)\n%(stack)s" % t)
                 self.now = dl
                 self.time_jumps += 1
                 self.spin = 0
